@@ -566,9 +566,14 @@ def r3(k: Kit) -> None:
                 return Obj('H') if args[0] == 'a' else None
             if name == 'self.options.setdefault':
                 return Obj('LIST')
+            if name == 'self.options.get':
+                return None
+            if name == 'isinstance':
+                return isinstance(args[0], Obj) and args[0].tag == 'LIST'
             return Obj('x')
         try:
-            o = evaluate(idx, ao.module, ao.node.body, {}, {'option': opt},
+            o = evaluate(idx, ao.module, ao.node.body,
+                         {'self._handlers': ('a',)}, {'option': opt},
                          on_call)
         except NotEvaluable as exc:
             rep.error('C17.R3', 'not-evaluable', str(exc))
@@ -1295,6 +1300,66 @@ def ca_lines_routed(k: Kit, rule: str) -> None:
                   k.loc(fi, nd), g.describe_path(w) if w else None)
 
 
+def lines_split_on_newline_only(k: Kit, rule: str) -> None:
+    """A trust file has the lines its author sees."""
+    rep = k.rep
+    n = 0
+    for q in ('known_hosts.SSHKnownHosts.load',
+              'auth_keys.SSHAuthorizedKeys.load'):
+        fi = k.func(q)
+        bad = [c for c in ast.walk(fi.node) if is_call(c, 'splitlines')]
+        spl = [c for c in ast.walk(fi.node) if is_call(c, 'split') and
+               c.args and isinstance(c.args[0], ast.Constant) and
+               c.args[0].value == '\n']
+        n += 1
+        rep.check(not bad and bool(spl), rule,
+                  key(fi, 'entries are separated by newline only'),
+                  "split('\\n')",
+                  'str.splitlines() also breaks a line at \\x0b \\x0c '
+                  '\\x1c-\\x1e \\x85 \\u2028 \\u2029: the one physical '
+                  'line `alpha <key1> note\\x0c* <key2>` makes key2 a '
+                  'trusted host key for every host, and a comment '
+                  'containing \\u2028 in authorized_keys authorises a '
+                  'second key without its from= restriction',
+                  fi.loc(bad[0]) if bad else fi.loc(fi.node))
+    rep.floor(rule, 'trust file loaders', n, 2)
+
+
+def option_values_required(k: Kit, rule: str) -> None:
+    """An option that takes a value is not accepted as a bare word."""
+    rep = k.rep
+    fi = k.func('misc.OptionsParser._add_option')
+    g = k.cfg(fi)
+    flags = [nd for nd, v in k.stores_to(fi, 'self.options')] + [
+        nd for nd in g.nodes if isinstance(nd.ast, ast.Assign) and any(
+            isinstance(t, ast.Subscript) and dotted(t.value) == 'self.options'
+            for t in nd.ast.targets) and isinstance(
+                nd.ast.value, ast.Constant) and nd.ast.value.value is True]
+    rep.floor(rule, 'flag stores in _add_option', len(flags), 1)
+
+    def not_valued(x) -> Optional[bool]:
+        a = x.ast
+        if x.kind == 'atom' and isinstance(a, ast.Compare) and \
+                len(a.ops) == 1 and \
+                dotted(a.comparators[0]) == 'self._handlers':
+            if isinstance(a.ops[0], ast.In):
+                return False
+            if isinstance(a.ops[0], ast.NotIn):
+                return True
+        return None
+    for nd in flags:
+        w = g.guarded_by(nd.id, not_valued)
+        rep.check(w is None, rule,
+                  key(fi, 'bare word only for flag options'),
+                  'options[name] = True only when name has no value handler',
+                  'a value option written as a bare word (`from <key>`, '
+                  '`cert-authority,principals <key>`) is stored as True: '
+                  'validate() later raises TypeError ("bool is not '
+                  'iterable") in the middle of the lookup, so the lines '
+                  'after it are never reached', k.loc(fi, nd),
+                  g.describe_path(w) if w else None)
+
+
 def run(idx, rep, tier):
     k = Kit(idx, rep)
     rep.assumptions += NOT_DECIDED
@@ -1308,6 +1373,63 @@ def run(idx, rep, tier):
     r4(k)
     r4_cert_kind(k)
     ca_lines_routed(k, 'C17.R4')
+    rep.rule('C17.R8', 'known_hosts / authorized_keys text is cut into '
+             'entries at "\\n" only (what OpenSSH and every editor call a '
+             'line), never with str.splitlines(); and an option that takes '
+             'a value is refused when written as a bare word instead of '
+             'being stored as a flag')
+    lines_split_on_newline_only(k, 'C17.R8')
+    rep.rule('C17.R9', 'SSHKnownHosts._add_exact gives every name of a '
+             'line an entry list of its own (the value stored into '
+             '_exact_entries is a list display written at the store, never '
+             'a list object bound outside the loop and stored under '
+             'several names); read_authorized_keys loads file by file (the '
+             'load() call sits in the loop over the files and takes one '
+             'read_file() result) - joined contents fuse the last line of '
+             'a file without final newline with the first line of the next')
+    _fa = k.func('known_hosts.SSHKnownHosts._add_exact')
+    _n = 0
+    for _x in ast.walk(_fa.node):
+        _val = None
+        if isinstance(_x, ast.Assign) and any(
+                isinstance(t, ast.Subscript) and
+                dotted(t.value) == 'self._exact_entries' for t in _x.targets):
+            _val = _x.value
+        elif is_call(_x, 'setdefault', 'self._exact_entries') and \
+                len(_x.args) > 1:
+            _val = _x.args[1]
+        if _val is None:
+            continue
+        _n += 1
+        rep.check(isinstance(_val, ast.List), 'C17.R9',
+                  key(_fa, 'one entry list per name'),
+                  'a fresh list display is stored',
+                  f'`{norm(_val)}` is stored under every new name of the '
+                  'line: with "alpha,192.0.2.10 K0" followed by "alpha K1" '
+                  'a lookup of beta at 192.0.2.10 returns K0 and K1; with '
+                  '"alpha,gamma K0" then "@revoked alpha K0", gamma\'s key '
+                  'is reported revoked', _fa.loc(_x))
+    rep.floor('C17.R9', 'entry list stores', _n, 1)
+    _fr = k.func('auth_keys.read_authorized_keys')
+    from ..index import parent as _parent
+    _loads = [c for c in ast.walk(_fr.node) if is_call(c, 'load')]
+    rep.floor('C17.R9', 'load calls in read_authorized_keys', len(_loads), 1)
+    for _c in _loads:
+        _p = _c
+        _inloop = False
+        while _p is not None and _p is not _fr.node:
+            _p = _parent(_p)
+            if isinstance(_p, (ast.For, ast.AsyncFor)):
+                _inloop = True
+        _ok = _inloop and _c.args and is_call(_c.args[0], 'read_file')
+        rep.check(bool(_ok), 'C17.R9', key(_fr, 'files loaded one by one'),
+                  'for filename in files: load(read_file(filename))',
+                  'the files are concatenated before parsing: when a file '
+                  'lacks its final newline its last entry and the first '
+                  'entry of the next file become one line and both keys '
+                  'are lost (16 of 128 lookups of authorised keys fail)',
+                  _fr.loc(_c))
+    option_values_required(k, 'C17.R8')
     key_alg_consistent(k, 'C17.R4')
     curve_lookup_converted(k, 'C17.R4')
     strict_networks(k, 'C17.R1')
